@@ -41,6 +41,12 @@ pub enum Act {
     /// record, for every stream the raw peer is still sending on, whether the endpoint has
     /// sent STOP_SENDING (and with which code)
     CollectStops,
+    /// the application under test sends a datagram / opens a uni stream carrying these bytes
+    AppSendDatagram { hex: String },
+    AppOpenUni { hex: String },
+    /// what a conforming peer does (RFC 9000 3.5): every stream the endpoint has asked us to stop
+    /// sending on is reset, which gives its stream credit back
+    ResetStopped,
 }
 
 #[derive(Serialize, Deserialize, Clone, Debug)]
@@ -302,14 +308,15 @@ pub fn run_script(script: &Script, trace: bool, prefix: &str) -> (Exec, Option<O
                 *fired.entry(k).or_insert(0) += 1;
             }
             match act {
-                Act::OpenUni { slot } => match raw_conn.open_uni().await {
+                // bounded: an endpoint that never grants the stream credit must not hang the script
+                Act::OpenUni { slot } => match tokio::time::timeout(Duration::from_secs(30), raw_conn.open_uni()).await.unwrap_or(Err(quinn::ConnectionError::TimedOut)) {
                     Ok(s) => {
                         let obs = Arc::new(Mutex::new(SlotObs { id: rp::sid(s.id()), bidi: false, ..Default::default() }));
                         slots.insert(*slot, Slot { send: Some(s), obs, _reader: None });
                     }
                     Err(_) => break,
                 },
-                Act::OpenBi { slot } => match raw_conn.open_bi().await {
+                Act::OpenBi { slot } => match tokio::time::timeout(Duration::from_secs(30), raw_conn.open_bi()).await.unwrap_or(Err(quinn::ConnectionError::TimedOut)) {
                     Ok((s, rcv)) => {
                         let obs = Arc::new(Mutex::new(SlotObs { id: rp::sid(s.id()), bidi: true, ..Default::default() }));
                         let reader = spawn_bidi_reader(rcv, obs.clone());
@@ -390,6 +397,35 @@ pub fn run_script(script: &Script, trace: bool, prefix: &str) -> (Exec, Option<O
                         if let Some(s) = sl.send.as_mut() {
                             if let Ok(Ok(Some(code))) = tokio::time::timeout(Duration::from_millis(1), s.stopped()).await {
                                 sl.obs.lock().unwrap().stopped = Some(code.into_inner());
+                            }
+                        }
+                    }
+                }
+                Act::AppSendDatagram { hex } => {
+                    let conn = app_slot.lock().unwrap().as_ref().map(|a| a.conn.clone());
+                    if let Some(conn) = conn {
+                        let _ = conn.send_datagram(unhex(hex));
+                    }
+                }
+                Act::AppOpenUni { hex } => {
+                    let conn = app_slot.lock().unwrap().as_ref().map(|a| a.conn.clone());
+                    if let Some(conn) = conn {
+                        let bytes = unhex(hex);
+                        let r = tokio::time::timeout(Duration::from_secs(20), async {
+                            let mut s = conn.open_uni().await.ok()?.await.ok()?;
+                            s.write_all(&bytes).await.ok()?;
+                            s.finish().await.ok()
+                        })
+                        .await;
+                        let _ = r;
+                    }
+                }
+                Act::ResetStopped => {
+                    for sl in slots.values_mut() {
+                        if let Some(s) = sl.send.as_mut() {
+                            if let Ok(Ok(Some(code))) = tokio::time::timeout(Duration::from_millis(1), s.stopped()).await {
+                                sl.obs.lock().unwrap().stopped = Some(code.into_inner());
+                                let _ = s.reset(code);
                             }
                         }
                     }
